@@ -87,7 +87,10 @@ class Gen:
         if k < 0.25: out.append(['lc', g.choice(LINE_COMMENTS), self.eolname()])
         else: out.append(self.nl())
         out += self.filler()
-        # the command itself starts after blanks only if the filler did not end inside a line: both are fine for CMake
+        # CMake: a command cannot follow a bracket comment on the same line (file_element = command line_ending |
+        # (bracket_comment|space)* line_ending), so a trailing bracket comment gets its own line ending
+        last_bc = max([i for i, a in enumerate(out) if a[0] == 'bc'], default=-1)
+        if last_bc >= 0 and not any(a[0] in ('n', 'rn', 'lc') for a in out[last_bc + 1:]): out.append(self.nl())
         return out + ind
 
     def sep_arg(self, first):
@@ -99,6 +102,8 @@ class Gen:
         out = self.filler()
         if not first and not any(a[0] in ('s', 't', 'n', 'rn', 'lc') for a in out):
             out.insert(g.randint(0, len(out)), g.choice([['s', 1], ['t', 1], self.nl(), ['lc', g.choice(LINE_COMMENTS), self.eolname()]]))
+        # CMake wants an argument separated by whitespace from a preceding bracket comment (cmake-language: separation)
+        if out and out[-1][0] == 'bc': out.append(['s', 1])
         return out
 
     def sep_close(self):
